@@ -5,7 +5,7 @@
    harness/cmd/wiredrv. *)
 EXTENDS Wire, Json
 
-Terminal == phase \in {"done", "rewritten", "stop", "vec"}
+Terminal == phase \in {"done", "rewritten", "stop"} \/ (phase = "vec" /\ vec.part # "first")
 
 ExportRec ==
     IF phase = "vec" THEN vec
@@ -20,5 +20,5 @@ ModelOK == /\ TypeOK
            /\ C03_LengthsConsistent /\ C03_TooBigExact /\ C03_NeverPastCap
            /\ C03_RewriteConsistentUnlessKF /\ C03_AliasRequiredSupported
            /\ C03_Dhcp
-           /\ C07_MechWellFormedUnlessKF /\ C07_KFExact /\ C07_ExpSelfConsistent
+           /\ C07_MechWellFormedUnlessKF /\ C07_KFExact /\ C07_ExpSelfConsistent /\ C07_PoolNotRead
 =============================================================================
